@@ -5,6 +5,12 @@
 pub use libc::*;
 
 pub unsafe fn io_uring_setup(entries: c_uint, p: *mut io_uring_params) -> c_int {
+    #[cfg(a10_verif)]
+    if let Some(f) = crate::verif::table().and_then(|t| t.io_uring_setup) {
+        if let Some(res) = f(entries, p.cast()) {
+            return res;
+        }
+    }
     syscall(SYS_io_uring_setup, entries as c_long, p as c_long) as _
 }
 
@@ -14,6 +20,12 @@ pub unsafe fn io_uring_register(
     arg: *const c_void,
     nr_args: c_uint,
 ) -> c_int {
+    #[cfg(a10_verif)]
+    if let Some(f) = crate::verif::table().and_then(|t| t.io_uring_register) {
+        if let Some(res) = f(fd, opcode, arg, nr_args) {
+            return res;
+        }
+    }
     syscall(
         SYS_io_uring_register,
         fd as c_long,
@@ -31,6 +43,12 @@ pub unsafe fn io_uring_enter2(
     arg: *const libc::c_void,
     size: usize,
 ) -> c_int {
+    #[cfg(a10_verif)]
+    if let Some(f) = crate::verif::table().and_then(|t| t.io_uring_enter2) {
+        if let Some(res) = f(fd, to_submit, min_complete, flags, arg, size) {
+            return res;
+        }
+    }
     syscall(
         SYS_io_uring_enter,
         fd as c_long,
@@ -40,6 +58,54 @@ pub unsafe fn io_uring_enter2(
         arg as c_long,
         size as c_long,
     ) as _
+}
+
+// Verification hooks: explicit items shadow the glob import of `libc` above.
+#[cfg(a10_verif)]
+pub unsafe fn mmap(
+    addr: *mut c_void,
+    len: size_t,
+    prot: c_int,
+    flags: c_int,
+    fd: c_int,
+    offset: off_t,
+) -> *mut c_void {
+    if let Some(f) = crate::verif::table().and_then(|t| t.mmap) {
+        if let Some(res) = f(addr, len, prot, flags, fd, offset) {
+            return res;
+        }
+    }
+    ::libc::mmap(addr, len, prot, flags, fd, offset)
+}
+
+#[cfg(a10_verif)]
+pub unsafe fn munmap(addr: *mut c_void, len: size_t) -> c_int {
+    if let Some(f) = crate::verif::table().and_then(|t| t.munmap) {
+        if let Some(res) = f(addr, len) {
+            return res;
+        }
+    }
+    ::libc::munmap(addr, len)
+}
+
+#[cfg(a10_verif)]
+pub unsafe fn madvise(addr: *mut c_void, len: size_t, advice: c_int) -> c_int {
+    if let Some(f) = crate::verif::table().and_then(|t| t.madvise) {
+        if let Some(res) = f(addr, len, advice) {
+            return res;
+        }
+    }
+    ::libc::madvise(addr, len, advice)
+}
+
+#[cfg(a10_verif)]
+pub unsafe fn close(fd: c_int) -> c_int {
+    if let Some(f) = crate::verif::table().and_then(|t| t.close) {
+        if let Some(res) = f(fd) {
+            return res;
+        }
+    }
+    ::libc::close(fd)
 }
 
 // Work around for <https://github.com/rust-lang/rust-bindgen/issues/1642>,
